@@ -115,6 +115,7 @@ func main() {
 			f(c)
 			if *tier == "thorough" {
 				checkResolverCompleteness(c)
+				checkViewsWellFormed(c)
 				if os.Getenv("HK_NO_AUDIT") == "" { runChangeAudit(c, *verif, *repo) }
 			}
 		}()
